@@ -30,7 +30,11 @@ OwnStorage(r) ==
      \* not only the elements in use: the whole capacity of the argument array (what append may write to)
      /\ SetOf(r.invs[i].slots) \cap SetOf(r.invs[j].slots) = {}
 
+\* growth: the reception time stamped on the line is the same in every copy (and not the zero time)
+SameTime(r) == \A i, j \in 1..Len(r.invs) : r.invs[i].time = r.invs[j].time /\ r.invs[i].time # "0001-01-01T00:00:00Z"
+
 C15OK(r) == /\ Len(r.invs) = r.expected          \* every registered handler of the three sets ran
+            /\ SameTime(r)
             /\ \A i \in 1..Len(r.invs) : Equal(r, r.invs[i])
             /\ OwnStorage(r)
 
